@@ -293,6 +293,46 @@ func ruleComparatorDirectionSet(c *Ctx, rule, pkg, method string) {
 	p := c.P
 	cts := comparatorTypes(c, pkg, method)
 	n := 0
+	if w := reversingWrapper(c, pkg, method); w != nil && len(cts) == 0 {
+		// the comparators know ascending order only; descending is a wrapper that negates: it is put around a
+		// comparator exactly where the sort field is not ascending
+		for _, fn := range c.prodFuncs(pkg) {
+			var fi *FactInfo
+			for _, b := range fn.Blocks {
+				for _, in := range b.Instrs {
+					al, isAl := in.(*ssa.Alloc)
+					if !isAl || namedOf(al.Type()) != w {
+						continue
+					}
+					if fi == nil {
+						fi = factsOf(fn)
+					}
+					n++
+					c.Analysed(FnName(fn))
+					ok := fi.HoldsWhere(b, func(f Fact) bool {
+						k, isCall := f.V.(*ssa.Call)
+						return f.Kind == "true" && !f.Pol && isCall && invokeNamed(k, "IsAscending")
+					})
+					c.Check(ok, rule, FnName(fn)+": wraps in "+w.Obj().Name(), p.Pos(al.Pos()), "the reversing wrapper is put around a comparator exactly where IsAscending() answered false", "the reversing wrapper is applied on a path where the sort field was not established to be descending: the direction the query asks for is not the one the rows are ordered in")
+				}
+			}
+		}
+		// the plain comparators: decided for ascending order by CMP
+		for _, fn := range c.prodFuncs(pkg) {
+			if fn.Parent() != nil || fn.Signature.Recv() == nil || fn.Name() != method || len(fn.Params) != 3 {
+				continue
+			}
+			if rn := namedOf(fn.Signature.Recv().Type()); rn != nil && rn != w {
+				if stt, isStruct := rn.Underlying().(*types.Struct); isStruct && len(fn.Blocks) > 1 && !hasSliceField(stt) {
+					n++
+					c.OK(rule, FnName(fn)+": direction", p.Pos(fn.Pos()), "the comparator knows ascending order only; descending order is the reversing wrapper's")
+				}
+			}
+		}
+		c.CallSites(n)
+		c.Floor(rule, 3)
+		return
+	}
 	for _, fn := range c.prodFuncs(pkg) {
 		for _, b := range fn.Blocks {
 			for _, in := range b.Instrs {
@@ -1278,4 +1318,13 @@ func ruleWithDefault(c *Ctx, rule string) {
 	}
 	c.CallSites(n)
 	c.Floor(rule, 3)
+}
+
+func hasSliceField(st *types.Struct) bool {
+	for i := 0; i < st.NumFields(); i++ {
+		if _, isSl := st.Field(i).Type().Underlying().(*types.Slice); isSl {
+			return true
+		}
+	}
+	return false
 }
